@@ -567,6 +567,128 @@ def atom_table(eng, res, rule="R-ATOM-TABLE"):
     res.ob(rule, fi, "two-letters-first", "two-letter atoms are tried before one-letter atoms (Cl is not read as C followed by l)", two, n1 not in cfg.reachable([fi and cfg.entry], avoid_nodes={n2}) or cfg.must_pass(n2, n1))
 
 
+TOKEN_FIELDS = ("elements", "atoms", "bond_descriptors")
+
+
+def _scanner_stack(eng, tok_init):
+    """name of the branch stack in the token constructor (the list whose top feeds the descriptor's binding atom)"""
+    flow = eng.flow(tok_init)
+    for bc in calls(tok_init, "BondDescriptor"):
+        a4 = bc.args[3] if len(bc.args) > 3 else None
+        cand = []
+        if isinstance(a4, ast.Name):
+            cand = [d.value for d in flow.reaching(a4.id, flow.cfg.node_of(bc)) if d.kind == "assign" and d.value is not None]
+        elif a4 is not None:
+            cand = [a4]
+        for v in cand:
+            for n in ast.walk(v):
+                if isinstance(n, ast.Subscript) and isinstance(n.slice, ast.UnaryOp) and isinstance(n.slice.operand, ast.Constant) and n.slice.operand.value == 1 and isinstance(n.value, ast.Name):
+                    return n.value.id
+    return None
+
+
+def _from_kept_stack(eng, fi, call, a, tok_init) -> bool:
+    """the binding atom is `self.<kept>[-1]` (possibly clamped at 0), `<kept>` being assigned from the scanner's branch stack
+    on every normal exit of the token constructor, and the function is a method of the token class"""
+    own = fi.outermost().enclosing_class()
+    if own is None or not eng.prog.is_subclass(own, "SmilesToken"):
+        return False
+    stack = _scanner_stack(eng, tok_init)
+    if stack is None:
+        return False
+    kept = set()
+    for n in own_nodes(tok_init.node):
+        if isinstance(n, ast.Assign) and len(n.targets) == 1 and isinstance(n.targets[0], ast.Attribute) and src(n.targets[0].value) == "self" and isinstance(n.value, ast.Name) and n.value.id == stack:
+            kept.add(n.targets[0].attr)
+    if not kept:
+        return False
+    flow = eng.flow(fi)
+    t = flow.expand_ssa(a, flow.cfg.node_of(call))
+    tops = [n for n in ast.walk(t) if isinstance(n, ast.Subscript) and isinstance(n.slice, ast.UnaryOp) and isinstance(n.slice.operand, ast.Constant) and n.slice.operand.value == 1]
+    if not tops:
+        return False
+    if not all(isinstance(n.value, ast.Attribute) and src(n.value.value) == "self" and n.value.attr in kept for n in tops):
+        return False
+    rest = [n for n in ast.walk(t) if isinstance(n, (ast.Name, ast.Attribute)) and not any(n is x or n is x.value or n is x.value.value for x in tops)]
+    return all(isinstance(n, ast.Name) and n.id in ("max", "self") for n in rest)
+
+
+def descriptor_origin(eng, res, rule="R-DESCR-ORIGIN"):
+    """Which atom a descriptor binds is decided by the token scanner's branch bookkeeping (R-BRANCH-ORDER).  That only
+    covers descriptors the scanner constructs, hence: (1) every BondDescriptor construction outside SmilesToken.__init__
+    passes no binding atom (terminals, the inverted terminal used for matching); (2) a token's element / atom /
+    descriptor lists are filled by its constructor only — no other method of the token class, and no code holding a
+    token, appends to or re-binds them."""
+    res.doc(rule, "descriptors that bind an atom are constructed by the token scanner only; a token's lists are filled by its constructor only")
+    tok_cls = eng.prog.cls("SmilesToken")
+    tok_init = eng.prog.func("token.SmilesToken.__init__")
+    n = 0
+    accepted_ctor_calls = set()
+    for fi in eng.prog.all_functions():
+        for c in calls(fi):
+            tg = eng.resolve_call(fi, c)
+            if not any(getattr(t, "name", None) == "BondDescriptor" and not hasattr(t, "params") for t in tg):
+                continue
+            if fi is tok_init or fi.outermost() is tok_init:
+                continue
+            n += 1
+            res.unit(fi)
+            a = c.args[3] if len(c.args) > 3 else None
+            for k in c.keywords:
+                if k.arg == "atom_bonding_to":
+                    a = k.value
+            ok = isinstance(a, ast.Constant) and a.value is None
+            if not ok and a is not None:
+                ok = _from_kept_stack(eng, fi, c, a, tok_init)
+                accepted_ctor_calls.add(id(c)) if ok else None
+            res.ob(rule, fi, f"descriptor-without-atom:{fi.qualname.split('.', 1)[-1]}", "a BondDescriptor constructed outside the token scanner designates no atom (None) or the top of the scanner's own branch stack", c, ok,
+                   f"binding atom {src(a)[:60] if a is not None else 'missing'}: this descriptor's atom does not come from the scanner's branch stack")
+    # (2) who may write a token's lists
+    from ..effects import MUT_METHODS
+
+    bad = []
+    for fi in eng.prog.all_functions():
+        if fi is tok_init or fi.outermost() is tok_init:
+            continue
+        own = fi.outermost().enclosing_class()
+        for node in own_nodes(fi.node):
+            recv = None
+            what = None
+            if isinstance(node, ast.Call) and isinstance(node.func, ast.Attribute) and node.func.attr in MUT_METHODS and isinstance(node.func.value, ast.Attribute) and node.func.value.attr in TOKEN_FIELDS:
+                recv, what = node.func.value, f".{node.func.attr}(...)"
+            elif isinstance(node, (ast.Assign, ast.AugAssign)):
+                for t in (node.targets if isinstance(node, ast.Assign) else [node.target]):
+                    base = t.value if isinstance(t, ast.Subscript) else t
+                    if isinstance(base, ast.Attribute) and base.attr in TOKEN_FIELDS and isinstance(base.ctx if not isinstance(t, ast.Subscript) else ast.Store(), ast.Store):
+                        recv, what = base, "assignment"
+            elif isinstance(node, ast.Delete):
+                for t in node.targets:
+                    base = t.value if isinstance(t, ast.Subscript) else t
+                    if isinstance(base, ast.Attribute) and base.attr in TOKEN_FIELDS:
+                        recv, what = base, "del"
+            if recv is None:
+                continue
+            owner = recv.value
+            is_token = False
+            if isinstance(owner, ast.Name) and owner.id == "self" and own is not None:
+                is_token = eng.prog.is_subclass(own, "SmilesToken")
+            else:
+                try:
+                    ts = eng.infer(owner, fi)
+                except Exception:  # noqa: BLE001
+                    ts = frozenset()
+                is_token = any(x[0] == "SmilesToken" or (x[0] == "inst" and len(x) > 1 and x[1] == "SmilesToken") for x in ts if isinstance(x, tuple)) or "SmilesToken" in {str(x) for x in ts}
+            if is_token:
+                # a builder-style method of the token class is tolerated when every descriptor it constructs binds the kept stack top
+                own_ctor = [c for c in calls(fi) if any(getattr(t, "name", None) == "BondDescriptor" and not hasattr(t, "params") for t in eng.resolve_call(fi, c))]
+                if own is not None and eng.prog.is_subclass(own, "SmilesToken") and own_ctor and all(id(c) in accepted_ctor_calls for c in own_ctor):
+                    continue
+                bad.append(f"{fi.qualname} line {node.lineno}: {what} on {src(recv)}")
+    res.ob(rule, tok_cls.qualname if hasattr(tok_cls, "qualname") else "token.SmilesToken", "token-lists-constructor-only",
+           "a token's elements / atoms / bond_descriptors are filled by SmilesToken.__init__ only", f"{tok_init.module.relpath}:{tok_init.node.lineno}", not bad, "; ".join(bad[:3]))
+    return n
+
+
 def check(eng, res):
     from ..fresh import fresh_flags
 
@@ -578,6 +700,8 @@ def check(eng, res):
     res.doc("R-BONDORDER-TABLE", "bond-order characters map to pairwise different orders (shared with C03)")
     res.doc("R-DESCR-NUM", "descriptor numbers index the object's descriptor list (used by transition lists)")
     branch_order(eng, res)
+    nd = descriptor_origin(eng, res)
+    res.floor("R-DESCR-ORIGIN", nd, 3)
     n = slice_same_string(eng, res)
     res.floor("R-PREC-PROV", n, 15)
     following_stops(eng, res)
